@@ -32,7 +32,7 @@ MANIFEST = {
     "level_note": "sampled pairs; executor replaced by the ray stand-in",
 }
 VARIANTS = ["truth_only", "ukf_params", "policy", "sensor_set", "sensor_noise", "seed", "output_cadence", "split_calls", "schedule_reverse",
-            "schedule_random", "exec_order_reverse", "exec_order_random", "extra_target_static", "extra_target_static", "fewer_targets_static", "target_added_by_event", "target_removed_by_event", "id_reused_after_removal", "same_timed_burn_on_other_agent", "filter_model", "maneuver_detection"]
+            "schedule_random", "exec_order_reverse", "exec_order_random", "extra_target_static", "extra_target_static", "fewer_targets_static", "target_added_by_event", "target_removed_by_event", "id_reused_after_removal", "same_timed_burn_on_other_agent", "two_engines", "filter_model", "maneuver_detection"]
 
 
 def trajectory(cfg, nsteps, **kw):
@@ -206,6 +206,19 @@ def make_pair(net, variant, rng):
         xcfg["platform"].update({"mass": 250.0, "visual_cross_section": 12.0, "reflectivity": 0.3})
         a["engines"][0]["targets"].append(xcfg)
         kb["_late_join"] = {"id": 19800, "j": rng.randrange(2, max(3, n + 1)), "cfg": copy.deepcopy(xcfg)}
+    elif variant == "two_engines":
+        # run B partitions the same agents over two tasking engines
+        e1 = b["engines"][0]
+        if len(e1["sensors"]) >= 2 and len(e1["targets"]) >= 2:
+            e2 = copy.deepcopy(e1)
+            e2["unique_id"] = 2
+            h = max(1, len(e1["targets"]) // 2)
+            e1["targets"], e2["targets"] = e1["targets"][:h], e2["targets"][h:]
+            e1["sensors"], e2["sensors"] = e1["sensors"][:1], e2["sensors"][1:]
+            b["engines"].append(e2)
+            for ev in b["events"]:
+                if ev.get("tasking_engine_id") == 1 and ev.get("event_type") == "target_addition" and rng.random() < 0.5:
+                    ev["tasking_engine_id"] = 2
     elif variant == "id_reused_after_removal":
         # both runs: target 19700 joins at step j. Run B only: another satellite carried the id 19700 from the start and was
         # removed at step i < j. From step j on the truth of 19700 depends only on the dynamics and the state it joined with.
@@ -287,7 +300,7 @@ def eval_pair(ctx, net, variant, rng_seed):
     ctx.count("states_compared", len(common))
     # stored rows: same output cadence in both runs (every variant but 'output_cadence') => the same set of stored epochs for every
     # agent that lives through the same steps in both runs
-    same_agents = ("truth_only", "ukf_params", "policy", "sensor_noise", "seed", "split_calls", "schedule_reverse", "schedule_random", "exec_order_reverse",
+    same_agents = ("two_engines", "truth_only", "ukf_params", "policy", "sensor_noise", "seed", "split_calls", "schedule_reverse", "schedule_random", "exec_order_reverse",
                    "exec_order_random", "filter_model", "maneuver_detection")
     if variant in same_agents and not bad:
         steps_of = lambda t, a_: {k[1] for k in t if k[0] == a_ and len(k) == 2}  # noqa: E731
@@ -363,6 +376,13 @@ def run(ctx):
         if variant in ("extra_target_static", "fewer_targets_static", "target_added_by_event", "target_removed_by_event", "exec_order_reverse", "exec_order_random") and rng.random() < 0.6:
             # agent-set and execution-order variants matter most where agents share more than the point-mass model
             net["truth_model"] = "special_perturbations"
+        if variant == "two_engines":
+            for _ in range(20):
+                if len(net["sensors"]) >= 2 and len(net["targets"]) >= 2:
+                    break
+                keep = {k_: net[k_] for k_ in ("truth_model", "station_keeping", "nsteps", "save_filter_steps", "init_pos_std")}
+                net = netkit.gen_network(rng, policies=("MunkresDecision", "MyopicNaiveGreedyDecision", "RandomDecision"), max_sensors=3, max_targets=4)
+                net.update(keep)
         if variant in ("id_reused_after_removal", "same_timed_burn_on_other_agent", "split_calls"):
             net["nsteps"] = max(net["nsteps"], 4)
         if variant == "filter_model":
